@@ -304,6 +304,16 @@ def gaussDiscrete (j : Json) : R Json := do
   let a := gaussDiscreteArgs st modes
   pure <| Json.mkObj [("mean", jvec k a.mean), ("cov", jmat k k a.cov), ("idxs", natList (discreteIdxs st.n modes))]
 
+/-- `ops.hermiteVals(q_mag, num_bins, s², trunc)`: grid points and the table `Hvals[n][k]` -/
+def hermiteOp (j : Json) : R Json := do
+  let q ← getRat j "q"
+  let s ← getRat j "s"
+  let nb ← getNat j "nb"
+  let trunc ← getNat j "trunc"
+  if nb < 2 then throw "nb < 2"
+  pure <| Json.mkObj [("grid", jarr ((List.range nb).map fun k => jrat (linspacePt q nb k))),
+    ("H", jarr ((List.range trunc).map fun n => jarr ((List.range nb).map fun k => jrat (hermiteVals q s nb n k))))]
+
 def handler (op : String) (j : Json) : Option (R Json) :=
   match op with
   | "meas.chop" => some (chop j)
@@ -321,6 +331,7 @@ def handler (op : String) (j : Json) : Option (R Json) :=
   | "meas.fockDist" => some (fockDistOp j)
   | "meas.sampler" => some (samplerOp j)
   | "meas.gaussDiscrete" => some (gaussDiscrete j)
+  | "meas.hermite" => some (hermiteOp j)
   | _ => none
 
 end SFV.Drv.Measure
